@@ -86,9 +86,12 @@ def build(r):
             fs.enablefilter(nm)
         elif op in ("up", "down"):
             fs.movefilter(nm, op)
-        elif op == "remove" and len(fs.filters) > 1:
+        elif op == "remove":
+            # down to the empty set too: what was required stays required, and survives saving and loading
             fs.removefilter(nm)
             names = [f["name"] for f in fs.filters]
+            if not names:
+                break
         elif op == "update" and fs.getfilter(nm) is not None:
             conds, acts, mt, n = gen_factory.gen_filter(r)
             vals = [gen_factory.hostile_value(r, gen_factory.SAFE_PIECES) for _ in range(n)]
